@@ -7,6 +7,7 @@ import (
 	"go/types"
 	"math/rand/v2"
 	"os"
+	"os/exec"
 	"path/filepath"
 	"sort"
 	"strings"
@@ -362,7 +363,7 @@ func (universeFam) ExecAll(cases []core.CaseIn, seed int64, emit func(c core.Cas
 			srcs[j] = src
 			files[fmt.Sprintf("u/s%d/s.go", j)] = src
 		}
-		if i == 0 {
+		if i == 0 && cgoUsable() {
 			// a package whose ONLY file imports "C" (a cgo wrapper): what go/packages compiles of it lies in the build cache, its
 			// source directory is where w.go is
 			files["u/cgow/w.go"] = "// Package cgow wraps a C constant.\npackage cgow\n\n/*\n#define ANSWER 42\n*/\nimport \"C\"\n\n// W is declared in a file that imports C.\ntype W struct{ N int }\n\n// Answer returns the constant.\nfunc Answer() int { return int(C.ANSWER) }\n"
@@ -394,6 +395,20 @@ func (universeFam) ExecAll(cases []core.CaseIn, seed int64, emit func(c core.Cas
 		os.RemoveAll(dir)
 	}
 	return nil
+}
+
+// cgoUsable: the go command would compile a file that imports "C" (cgo switched on and a C compiler at hand).
+func cgoUsable() bool {
+	out, err := exec.Command("go", "env", "CGO_ENABLED", "CC").Output()
+	if err != nil {
+		return false
+	}
+	f := strings.Fields(string(out))
+	if len(f) < 2 || f[0] != "1" {
+		return false
+	}
+	_, err = exec.LookPath(f[1])
+	return err == nil
 }
 
 func (universeFam) Rand(n int, rng *rand.Rand, emit func(cas any)) error {
